@@ -100,6 +100,15 @@ func c07URLs(assets []app.VerifAsset, r *Rng, per int) []string {
 			"/livesim2/"+a.AssetPath+"/nosuch/1.m4s?nowMS=100000", "/livesim2/tsbd_x/"+a.AssetPath+"/"+mpd+"?nowMS=100000")
 		urls = append(urls, "/urlgen/create?asset="+a.AssetPath+"&mpd="+mpd+"&stl=tlt&tsbd=30", "/urlgen/mpds?asset="+a.AssetPath)
 	}
+	// the audio-only asset (the reference representation is an audio one)
+	for ai := range assets {
+		if assets[ai].AssetPath == "gen_audioonly" {
+			for _, u := range []string{"tsbd_300/gen_audioonly/Manifest.mpd", "tsbd_300/gen_audioonly/A2/10.m4s", "tsbd_300/gen_audioonly/A8/10.m4s", "segtimeline_1/gen_audioonly/Manifest.mpd",
+				"gen_audioonly/A8/20.m4s", "gen_audioonly/A2/45.m4s", "segtimelinenr_1/gen_audioonly/Manifest.mpd"} {
+				urls = append(urls, "/livesim2/"+u+"?nowMS=100000")
+			}
+		}
+	}
 	urls = append(urls, "/assets", "/urlgen/", "/vod/testpic_2s/Manifest.mpd")
 	return urls
 }
